@@ -26,6 +26,7 @@ import (
 	"testing"
 	"time"
 
+	abci "github.com/cometbft/cometbft/abci/types"
 	tmjson "github.com/cometbft/cometbft/libs/json"
 	coretypes "github.com/cometbft/cometbft/rpc/core/types"
 	cmttypes "github.com/cometbft/cometbft/types"
@@ -58,6 +59,7 @@ type apiWorld struct {
 	lg   *sigLogger
 	api  *rpcfilters.PublicFilterAPI
 	nbar int
+	t0   time.Time // about when timeoutLoop created its ticker: ticks come at t0 + n * tick
 }
 
 var encOnce sync.Once
@@ -66,13 +68,15 @@ var encTxConfig client.TxConfig
 // newApiWorld: tick = period of timeoutLoop's ticker (read from the package's deadline when the API is created);
 // afterwards the deadline new / polled filters are armed with is `arm`.
 func newApiWorld(t *testing.T, cap int32, tick, arm time.Duration) *apiWorld {
-	encOnce.Do(func() { encTxConfig = chainapp.RegisterEncodingConfig().TxConfig })
+	encOnce.Do(func() { encTxConfig = chainappEncoding() })
 	f := newFakeWS(t)
 	lg := newSigLogger()
 	rpcfilters.VerifSetFilterDeadline(tick)
 	clientCtx := client.Context{}.WithTxConfig(encTxConfig)
 	before := countGoroutines("PublicFilterAPI).timeoutLoop", "chan receive")
-	api := rpcfilters.NewPublicAPI(lg, clientCtx, f.client(), apiBackend{cap: cap})
+	cl := f.client()
+	t0 := time.Now()
+	api := rpcfilters.NewPublicAPI(lg, clientCtx, cl, apiBackend{cap: cap})
 	// timeoutLoop reads the deadline when it starts: wait until it is parked on its ticker
 	dl := time.Now().Add(20 * time.Second)
 	for countGoroutines("PublicFilterAPI).timeoutLoop", "chan receive") <= before {
@@ -82,8 +86,10 @@ func newApiWorld(t *testing.T, cap int32, tick, arm time.Duration) *apiWorld {
 		time.Sleep(100 * time.Microsecond)
 	}
 	rpcfilters.VerifSetFilterDeadline(arm)
-	return &apiWorld{t: t, f: f, lg: lg, api: api}
+	return &apiWorld{t: t, f: f, lg: lg, api: api, t0: t0}
 }
+
+func chainappEncoding() client.TxConfig { return chainapp.RegisterEncodingConfig().TxConfig }
 
 func countGoroutines(fn, state string) int {
 	n := 0
@@ -113,6 +119,19 @@ func (w *apiWorld) barrier() bool {
 
 func (f *fakeWS) pushHeader(q string, height int64) error {
 	ev := coretypes.ResultEvent{Query: q, Data: cmttypes.EventDataNewBlockHeader{Header: cmttypes.Header{ChainID: "verif_1-1", Height: height}}}
+	res, err := tmjson.Marshal(ev)
+	if err != nil {
+		return err
+	}
+	msg := fmt.Sprintf(`{"jsonrpc":"2.0","id":1,"result":%s}`, res)
+	f.mu.Lock()
+	defer f.mu.Unlock()
+	return f.conn.WriteMessage(websocket.TextMessage, []byte(msg))
+}
+
+func (f *fakeWS) pushTxQuiet(q string, tx []byte) error {
+	ev := coretypes.ResultEvent{Query: q, Data: cmttypes.EventDataTx{TxResult: abci.TxResult{Height: 5, Tx: tx, Result: abci.ExecTxResult{Code: 18}}},
+		Events: map[string][]string{"ethereum_tx.ethereumTxHash": {"0x01"}}}
 	res, err := tmjson.Marshal(ev)
 	if err != nil {
 		return err
@@ -378,6 +397,7 @@ func TestChildApiStress(t *testing.T) {
 		}
 	}()
 	// events stream all the time
+	garbage := pendingInputs(t)
 	stopPush := make(chan struct{})
 	pushDone := make(chan struct{})
 	go func() {
@@ -389,13 +409,17 @@ func TestChildApiStress(t *testing.T) {
 			default:
 			}
 			var err error
-			switch i % 3 {
-			case 0:
+			switch i % 6 {
+			case 0, 3:
 				err = w.f.pushHeader(qHeader, i)
 			case 1:
 				err = w.f.pushQuiet(qEvm, int(i))
-			default:
+			case 2:
 				err = w.f.pushQuiet(qTx, int(i))
+			case 4: // Tx events of committed-but-invalid transactions, and undecodable bytes
+				err = w.f.pushTxQuiet(qTx, garbage[[]string{"garbage-eth-payload", "no-messages"}[int(i/6)%2]])
+			default:
+				err = w.f.pushTxQuiet([]string{qTx, qEvm}[int(i/6)%2], []byte{0xff, 0x01, byte(i)})
 			}
 			if err != nil {
 				return
@@ -421,8 +445,8 @@ func TestChildApiStress(t *testing.T) {
 			case <-wdStop:
 				return
 			case <-time.After(500 * time.Millisecond):
-				if atomic.LoadInt64(&inFlight) > 0 && time.Since(time.Unix(0, lastProgress.Load())) > 20*time.Second {
-					fmt.Println("APISTRESS deadlock: an API call has not returned for 20 s")
+				if atomic.LoadInt64(&inFlight) > 0 && time.Since(time.Unix(0, lastProgress.Load())) > 10*time.Second {
+					fmt.Println("APISTRESS deadlock: an API call has not returned for 10 s")
 					buf := make([]byte, 1<<18)
 					fmt.Println(string(buf[:runtimeStack(buf)]))
 					os.Exit(3)
@@ -438,9 +462,70 @@ func TestChildApiStress(t *testing.T) {
 	end := time.Now().Add(dur)
 	rounds, doubles, expiredFirst := 0, 0, 0
 	rng := NewRng(seed ^ 0xa91)
+	spinUntil := func(t time.Time) {
+		for time.Now().Before(t) {
+			if time.Until(t) > 300*time.Microsecond {
+				time.Sleep(50 * time.Microsecond)
+			}
+		}
+	}
+	tickAfter := func(t time.Time) time.Time { // first tick of timeoutLoop's ticker not before t
+		n := t.Sub(w.t0)/dl + 1
+		return w.t0.Add(n * dl)
+	}
+	tickRounds := 0
 	for time.Now().Before(end) {
 		r := rng.Fork(uint64(rounds))
 		rounds++
+		if rounds%3 == 0 {
+			// tick round: many filters whose timers have all fired when a tick of timeoutLoop comes, and all clients calling
+			// uninstall / changes on them from just before that tick until just after it: calls overlap with the expiry work
+			tickRounds++
+			spinUntil(tickAfter(time.Now()).Add(200 * time.Microsecond))
+			var ids []rpc.ID
+			call("new*", func() {
+				for i := 0; i < 120; i++ {
+					var id rpc.ID
+					switch r.Intn(6) {
+					case 0:
+						id, _ = w.api.NewFilter(ethLogsCrit())
+					case 1:
+						id = w.api.NewPendingTransactionFilter()
+					default:
+						id = w.api.NewBlockFilter()
+					}
+					if id != "" && !strings.HasPrefix(string(id), "error creating") {
+						ids = append(ids, id)
+					}
+				}
+			})
+			target := tickAfter(time.Now().Add(dl))
+			from, to := target.Add(-time.Duration(200+r.Intn(400))*time.Microsecond), target.Add(900*time.Microsecond)
+			var wg sync.WaitGroup
+			for g := 0; g < k; g++ {
+				wg.Add(1)
+				gr := r.Fork(uint64(1000 + g))
+				go func() {
+					defer wg.Done()
+					spinUntil(from)
+					for time.Now().Before(to) {
+						id := ids[gr.Intn(len(ids))]
+						if gr.Chance(50) {
+							call("uninstall", func() { w.api.UninstallFilter(id) })
+						} else {
+							call("changes", func() { _, _ = w.api.GetFilterChanges(id) })
+						}
+					}
+				}()
+			}
+			wg.Wait()
+			call("uninstall*", func() {
+				for _, id := range ids {
+					w.api.UninstallFilter(id)
+				}
+			})
+			continue
+		}
 		// a fresh filter of a drawn type, shared by all clients of this round
 		var id rpc.ID
 		call("new", func() {
@@ -516,7 +601,7 @@ func TestChildApiStress(t *testing.T) {
 		ok = err == nil && w.api.UninstallFilter(id) && !w.api.UninstallFilter(id)
 	})
 	close(wdStop)
-	fmt.Printf("APISTRESS rounds=%d doubles=%d no_uninstall_found=%d final_ok=%v\n", rounds, doubles, expiredFirst, ok)
+	fmt.Printf("APISTRESS rounds=%d doubles=%d no_uninstall_found=%d tick_rounds=%d final_ok=%v\n", rounds, doubles, expiredFirst, tickRounds, ok)
 	if ok {
 		fmt.Println("APISTRESS survived")
 	}
